@@ -36,17 +36,20 @@
    typed related configurations take related steps (`step_rel`), and accepted programs run in lock step
    in the two polarized modes: same result kind, same printed labels in the same order, same live
    processes (`run_decl_alpha`).
+   For SOURCES: `typecheck_decl` / `verdict_decl` — the checker accepts a per-declaration renamed
+   source iff it accepts the original and its annotated output is the per-declaration renamed output
+   (the checker reads a signature only through name, type and parameter TYPES: `tc_form_sg`; the
+   preliminary checks read a body only through the identifiers of its free names, which are kept);
+   `run_decl_src` — verdict and outcome in the THREE modes with no premise on the checker's outputs.
    NOT proved here: renamings that map two binders of ONE declaration to one identifier (general alpha:
-   `run_alpha_invariant`, a Definition); that the typechecker's output for a per-declaration renamed
-   source is the per-declaration renamed output (the premise `decl_renamed p' q'` of run_decl_alpha is
-   about the annotated programs); the non-polarized mode for run_decl_alpha (step_rel covers it, the
-   run-time typing invariant along NP runs is a8's InvNP). *)
+   `run_alpha_invariant`, a Definition). *)
 From stdpp Require Import gmap strings.
 Require Import Grits.Base Grits.STypes Grits.Forms Grits.Subst Grits.Expand Grits.TcDeps Grits.TcTop Grits.Runtime.
 Require Import Grits.spec.Rename Grits.proofs.RenameTypes Grits.proofs.RenameSubst Grits.proofs.RenameTc
                Grits.proofs.RenameExt Grits.proofs.RenameRun Grits.proofs.RenameSim Grits.proofs.PermTc
                Grits.proofs.RenameKeys Grits.proofs.C14Main Grits.proofs.C14Closed Grits.proofs.C14Examples
-               Grits.proofs.RenameSimT Grits.proofs.RenameAlpha Grits.proofs.C14Alpha.
+               Grits.proofs.RenameSimT Grits.proofs.RenameAlpha Grits.proofs.C14Alpha Grits.proofs.C14Decl.
+Require Grits.proofs.TcDeclRename Grits.Tc.
 Require Grits.spec.RtTyping Grits.proofs.RtTheorems Grits.proofs.RtTcSyn Grits.proofs.DeterminismAll.
 Require Grits.spec.SynOk Grits.proofs.TypingVerdict Grits.proofs.DeclPerm Grits.proofs.VerdictInvariant.
 Require Import Coq.Sorting.Permutation.
@@ -186,11 +189,39 @@ Theorem run_decl_alpha : forall p q p' q' md pick fuel,
   RtTheorems.in_fragment p' -> RtTheorems.in_fragment q' ->
   SynOk.prog_syn_ok p = true -> SynOk.prog_syn_ok q = true -> RtTcSyn.raw_ok p = true -> RtTcSyn.raw_ok q = true ->
   DeterminismAll.all_src_b p = true -> DeterminismAll.all_src_b q = true ->
-  decl_renamed p' q' -> is_np md = false ->
+  decl_renamed p' q' ->
   kind_of (run_program fuel pick md q') = kind_of (run_program fuel pick md p') /\
   labels (final_cfg (run_program fuel pick md q')) = labels (final_cfg (run_program fuel pick md p')) /\
   pids (final_cfg (run_program fuel pick md q')) = pids (final_cfg (run_program fuel pick md p')).
 Proof. exact C14Alpha.run_decl_alpha. Qed.
+
+(* ... of SOURCE programs: q is p with every function and every process body renamed by its own
+   injective identifier map (types, labels, function / process / assumed names kept).  Verdict: *)
+Theorem typecheck_decl : forall p q, src_renamed p q ->
+  match typecheck p, typecheck q with
+  | Accept p', Accept q' => decl_renamed p' q' /\ p_assumed q' = p_assumed p'
+  | Accept _, _ | _, Accept _ => False
+  | _, _ => True
+  end.
+Proof. exact C14Decl.typecheck_decl. Qed.
+
+Theorem verdict_decl : forall p q, src_renamed p q -> PermTc.accepts (typecheck q) = PermTc.accepts (typecheck p).
+Proof. exact C14Decl.verdict_decl. Qed.
+
+(* ... and outcome, in the three modes, with no premise about the checker's outputs *)
+Theorem run_decl_src : forall p q p' md pick fuel,
+  src_renamed p q -> typecheck p = Accept p' -> RtTheorems.in_fragment p' ->
+  SynOk.prog_syn_ok p = true -> SynOk.prog_syn_ok q = true -> RtTcSyn.raw_ok p = true -> RtTcSyn.raw_ok q = true ->
+  DeterminismAll.all_src_b p = true -> DeterminismAll.all_src_b q = true ->
+  exists q', typecheck q = Accept q' /\
+    kind_of (run_program fuel pick md q') = kind_of (run_program fuel pick md p') /\
+    labels (final_cfg (run_program fuel pick md q')) = labels (final_cfg (run_program fuel pick md p')) /\
+    pids (final_cfg (run_program fuel pick md q')) = pids (final_cfg (run_program fuel pick md p')).
+Proof. exact C14Decl.run_decl_src. Qed.
+
+(* the checker reads a signature only through its name, its type and the types of its parameters *)
+Theorem tc_form_sg : forall D Sg Sg', TcDeclRename.sgeq Sg Sg' -> forall f g sh pty, Tc.tc_form D Sg g sh pty f = Tc.tc_form D Sg' g sh pty f.
+Proof. intros D Sg Sg' H. exact (proj1 (TcDeclRename.tc_form_sg D Sg Sg' H)). Qed.
 
 (* non-vacuity on a concrete program: the repaired F24 reproducer and a collision-rich renaming *)
 Theorem example_renamed_ast : option_map (rn_program ex_ren) (parsed ex_text) = parsed ex_text_renamed.
@@ -226,6 +257,10 @@ Print Assumptions stepT_erase.
 Print Assumptions stepT_sim.
 Print Assumptions step_rel.
 Print Assumptions run_decl_alpha.
+Print Assumptions typecheck_decl.
+Print Assumptions verdict_decl.
+Print Assumptions run_decl_src.
+Print Assumptions tc_form_sg.
 Print Assumptions example_renamed_ast.
 Print Assumptions example_admissible.
 Print Assumptions example_runs.
